@@ -45,6 +45,7 @@ type promCase struct {
 	RangeMs int64  `json:"range_ms"`
 	Matcher int    `json:"matcher"`
 	Streams []Strm `json:"streams"`
+	Ver     VerCfg `json:"ver"`
 }
 
 // every function name the transpilers know (promQueryable.go supportedFunctions,
@@ -270,13 +271,14 @@ func predProm(c promCase, o *evid.Obs) error {
 	}
 	o.Tag(w.tags()...)
 	o.Tag("wzone:"+zoneNames[c.WZone], "rzone:"+zoneNames[c.RZone], "func:"+c.Func)
+	o.Tag(c.Ver.tags(w, "v5")...)
 	if c.Cluster {
 		o.Tag("cluster")
 	} else {
 		o.Tag("single-node")
 	}
 	run := func(st *logStore) (map[string][]promPoint, []string, []stmtRec, error) {
-		rd, be := newReader(st.db, c.Cluster)
+		rd, be := newReader(st.db, c.Cluster, c.Ver, w)
 		defer rd.Close()
 		var res map[string][]promPoint
 		var nol []string
